@@ -716,7 +716,7 @@ class RequestHandler:
             morsel["expires"] = httputil.format_timestamp(expires)
         if path:
             morsel["path"] = path
-        if max_age:
+        if max_age is not None:
             # Note change from _ to -.
             morsel["max-age"] = str(max_age)
         if httponly:
